@@ -66,7 +66,13 @@ func (s *Session) Sign(tool string, key *rsa.PrivateKey, cert *x509.Certificate,
 	in := s.Write("content.bin", content)
 	out := filepath.Join(s.Dir, "out.der")
 	os.Remove(out)
-	args := []string{tool, "-sign", "-binary", "-md", "sha256", "-outform", "DER", "-signer", cp, "-inkey", kp, "-in", in, "-out", out}
+	args := []string{tool, "-sign", "-binary", "-md", "sha256", "-outform", "DER"}
+	// "FIRST" followed by four arguments (-signer X -inkey Y) names a co-signer before the signer proper
+	for len(extra) >= 5 && extra[0] == "FIRST" {
+		args = append(args, extra[1:5]...)
+		extra = extra[5:]
+	}
+	args = append(args, "-signer", cp, "-inkey", kp, "-in", in, "-out", out)
 	args = append(args, extra...)
 	if _, e, err := s.Run(args...); err != nil {
 		return nil, fmt.Errorf("openssl %v: %v: %s", args, err, e)
